@@ -104,7 +104,7 @@ class E2ERun:
         self.scn = scn
         self.ev = []
         self.net = vnet.VNet()
-        self.loop = vnet.VLoop(self.net)
+        self.loop = vnet.VLoop(self.net, vtime=True)
         self.rng = random.Random(scn["seed"])
         self.querying = False
 
@@ -147,9 +147,9 @@ class E2ERun:
         self.net.on_write_hook = on_write
         seen = []
         bridge = SwitcherBridge(lambda d: seen.append(device_fields(d)), [20002, 20003])
-        await bridge.start()
+        await vnet.bounded(bridge.start())
         api = (SwitcherType1Api if t1 else SwitcherType2Api)(host, bytes(sim.id).hex(), f"{sim.key:02x}")
-        await api.connect()
+        await vnet.bounded(api.connect())
         M = {1: ThermostatMode.AUTO, 2: ThermostatMode.DRY, 3: ThermostatMode.FAN, 4: ThermostatMode.COOL, 5: ThermostatMode.HEAT}
         F = {0: ThermostatFanLevel.AUTO, 1: ThermostatFanLevel.LOW, 2: ThermostatFanLevel.MEDIUM, 3: ThermostatFanLevel.HIGH}
         for st in scn["steps"]:
@@ -162,7 +162,7 @@ class E2ERun:
                 self.log(ev="Op", op=do, a={})
                 self.querying = True
                 try:
-                    res = await getattr(api, do)()
+                    res = await vnet.bounded(getattr(api, do)())
                     self.log(ev="Read", op=do, r=_result_fields(do, res, {}))
                 except Exception as x:  # noqa: BLE001 - the device answers with a well-formed reply: judged by the specification
                     self.log(ev="OpRaised", exc=type(x).__name__)
@@ -174,18 +174,18 @@ class E2ERun:
                 a = st["a"]
                 try:
                   if do == "control_device":
-                      await api.control_device(Command.ON if a["on"] else Command.OFF, a["minutes"])
+                      await vnet.bounded(api.control_device(Command.ON if a["on"] else Command.OFF, a["minutes"]))
                   elif do == "set_auto_shutdown":
-                      await api.set_auto_shutdown(timedelta(seconds=a["secs"]))
+                      await vnet.bounded(api.set_auto_shutdown(timedelta(seconds=a["secs"])))
                   elif do == "set_device_name":
-                      await api.set_device_name("".join(chr(c) for c in a["cps"]))
+                      await vnet.bounded(api.set_device_name("".join(chr(c) for c in a["cps"])))
                   elif do == "set_position":
-                      await api.set_position(a["pos"])
+                      await vnet.bounded(api.set_position(a["pos"]))
                   elif do == "stop":
-                      await api.stop()
+                      await vnet.bounded(api.stop())
                   elif do == "update_state":
-                      await api.control_breeze_device(SwitcherBreezeRemote(IRSET), DeviceState.ON if a["state"] else DeviceState.OFF, M[a["mode"]], a["temp"],
-                                                      F[a["fan"]], ThermostatSwing.ON if a["swing"] else ThermostatSwing.OFF, update_state=True)
+                      await vnet.bounded(api.control_breeze_device(SwitcherBreezeRemote(IRSET), DeviceState.ON if a["state"] else DeviceState.OFF, M[a["mode"]],
+                                                                   a["temp"], F[a["fan"]], ThermostatSwing.ON if a["swing"] else ThermostatSwing.OFF, update_state=True))
                 except Exception as x:  # noqa: BLE001 - every request here has accepted arguments and the device answers: judged by the specification
                     self.log(ev="OpRaised", exc=type(x).__name__)
             data = sim.broadcast()
@@ -198,8 +198,8 @@ class E2ERun:
             if not seen:
                 self.log(ev="Seen", g={"name": [], "state": -1, "watts": -1, "remaining": [], "auto": [], "position": -1, "direction": [],
                                        "mode": -1, "target": -1, "fan": -1, "swing": -1, "id": [], "key": []})
-        await api.disconnect()
-        await bridge.stop()
+        await vnet.bounded(api.disconnect())
+        await vnet.bounded(bridge.stop())
         await vnet.settle(3)
 
 
@@ -251,7 +251,7 @@ class GenRun:
         self.beh, self.fam = beh, fam
         self.rng = random.Random(seed)
         self.net = vnet.VNet()
-        self.loop = vnet.VLoop(self.net)
+        self.loop = vnet.VLoop(self.net, vtime=True)
         self.mismatch: list[dict] = []
 
     def run(self) -> list[dict]:
@@ -296,7 +296,7 @@ class GenRun:
         udp_port = 20002 if t1 else 20003
         bridge = SwitcherBridge(lambda d: seen.append(device_fields(d)), [udp_port])
         api = (SwitcherType1Api if t1 else SwitcherType2Api)(host, bytes(sim.id).hex(), f"{sim.key:02x}")
-        await api.connect()
+        await vnet.bounded(api.connect())
         M = {1: ThermostatMode.AUTO, 2: ThermostatMode.DRY, 3: ThermostatMode.FAN, 4: ThermostatMode.COOL, 5: ThermostatMode.HEAT}
         F = {0: ThermostatFanLevel.AUTO, 1: ThermostatFanLevel.LOW, 2: ThermostatFanLevel.MEDIUM, 3: ThermostatFanLevel.HIGH}
         air: list[bytes] = []
@@ -306,26 +306,26 @@ class GenRun:
             a, x, exp = st["a"], st["x"], st["exp"]
             try:
                 if a == "Control":
-                    await api.control_device(Command.ON if x["on"] else Command.OFF, x["minutes"])
+                    await vnet.bounded(api.control_device(Command.ON if x["on"] else Command.OFF, x["minutes"]))
                     air, read = [], None
                 elif a == "SetAutoOff":
-                    await api.set_auto_shutdown(timedelta(seconds=x["secs"]))
+                    await vnet.bounded(api.set_auto_shutdown(timedelta(seconds=x["secs"])))
                     air, read = [], None
                 elif a == "SetPosition":
-                    await api.set_position(x["pos"])
+                    await vnet.bounded(api.set_position(x["pos"]))
                     air, read = [], None
                 elif a == "StopShutter":
-                    await api.stop()
+                    await vnet.bounded(api.stop())
                     air, read = [], None
                 elif a == "TellThermo":
-                    await api.control_breeze_device(SwitcherBreezeRemote(IRSET), DeviceState.ON if x["state"] else DeviceState.OFF, M[x["mode"]],
-                                                    x["temp"], F[x["fan"]], ThermostatSwing.ON if x["swing"] else ThermostatSwing.OFF, update_state=True)
+                    await vnet.bounded(api.control_breeze_device(SwitcherBreezeRemote(IRSET), DeviceState.ON if x["state"] else DeviceState.OFF, M[x["mode"]],
+                                                                 x["temp"], F[x["fan"]], ThermostatSwing.ON if x["swing"] else ThermostatSwing.OFF, update_state=True))
                     air, read = [], None
                 elif a == "Query":
                     op = "get_state" if t1 else ("get_shutter_state" if fam == "shutter" else "get_breeze_state")
                     querying[0] = True
                     try:
-                        read = _result_fields(op, await getattr(api, op)(), {})
+                        read = _result_fields(op, await vnet.bounded(getattr(api, op)()), {})
                     finally:
                         querying[0] = False
                 elif a == "Elapse":
@@ -344,9 +344,9 @@ class GenRun:
                     view = seen[0]
                 elif a == "Start":
                     await vnet.settle(3)
-                    await bridge.start()
+                    await vnet.bounded(bridge.start())
                 elif a == "Stop":
-                    await bridge.stop()
+                    await vnet.bounded(bridge.stop())
                     await vnet.settle(3)
             except Exception as exc:  # noqa: BLE001 - every action of the model succeeds: an exception is a mismatch
                 self._miss(n, a, "C02:e2e-action-raised" if a not in ("Query", "Deliver", "Start", "Stop") else
@@ -364,8 +364,8 @@ class GenRun:
                     self._miss(n, a, "C08:e2e-state-query-result", exp["read"], got)
             if self.mismatch:
                 return
-        await api.disconnect()
-        await bridge.stop()
+        await vnet.bounded(api.disconnect())
+        await vnet.bounded(bridge.stop())
         await vnet.settle(3)
 
 
